@@ -82,6 +82,10 @@ def run_item(item):
         res['idem'] = canon.ser_expr(r2) == canon.ser_expr(r)
         if not res['idem']:
             res['idem_got'] = str(r2)
+        # equal expressions must simplify identically whether equal sub-trees are one shared object or
+        # distinct objects (the canonical form is a function of the structure)
+        ri = X.expr_simp(canon.deser_expr_interned(item['e'], regs))
+        res['interned_equal'] = canon.ser_expr(ri) == canon.ser_expr(r)
         var = []
         for v in item.get('variants', []):
             rv = X.expr_simp(build(v))
